@@ -59,6 +59,16 @@ def handle (args : List String) : String :=
     match fromHex ofmt, hexNat bits with
     | some f, some b => renderRes (numToStr exactGen f (ofBits b))
     | _, _ => "bad-request"
+  | "printargs" :: mode :: ofmt :: ofs :: ors :: rest =>
+    let m : Option OutMode := if mode == "default" then some .default else if mode == "csv" then some .csv else if mode == "tsv" then some .tsv else none
+    let parseVal (s : String) : Option Val :=
+      match s.splitOn ":" with
+      | ["n", b] => (hexNat b).map (fun bits => Val.num (ofBits bits))
+      | ["s", h] => (fromHex h).map Val.str
+      | _ => none
+    match m, fromHex ofmt, fromHex ofs, fromHex ors, rest.mapM parseVal with
+    | some m, some f, some fs, some rs, some vs => renderRes (printArgs exactGen m f fs rs vs)
+    | _, _, _, _, _ => "bad-request"
   | ["table"] => Generated.C09Verbs.verbTableText
   | _ => "bad-request"
 
